@@ -225,6 +225,11 @@ def meta_ops(mod):
         # xsi:type resolution walks what the context knows while other threads make it know more
         "xml_xsi": lambda c: XmlParser(context=c).from_string(
             f'<TextAttr xmlns="urn:m" xmlns:xsi="{XSI}" xsi:type="TextMore" a="1" c="z">t</TextAttr>', mod.TextAttr),
+        # a child the class has no element field for (it goes to the wildcard): looking it up must stay a READ of the
+        # shared metadata, while another thread walks the element types of the same class for a JSON object
+        "xml_shuffled_wild": lambda c: XmlParser(context=c).from_string(
+            '<Shuffled xmlns="urn:m" k="3"><e1>p</e1><o:x xmlns:o="urn:o">w</o:x><o:y xmlns:o="urn:o"/><e2>4</e2></Shuffled>', mod.Shuffled),
+        "dec_shuffled_wildobj": lambda c: JsonParser(context=c).from_string('{"e1": "p", "k": 3, "rest": [{"value": "u", "a": 2}], "e2": 4}', mod.Shuffled),
         "xml_shuffled": lambda c: XmlParser(context=c).from_string(
             '<Shuffled xmlns="urn:m" k="3" m="n"><e1>p</e1><e2>4</e2><t a="2">u</t></Shuffled>', mod.Shuffled),
     }
@@ -251,7 +256,8 @@ def explore_meta(ctx, max_pre, limit):
     families = [{"dec_text_noclass", "dec_subset_noclass", "by_fields", "by_fields_all"},
                 {"enc_text", "enc_shuffled", "all_vars", "dec_text", "xml_text"},
                 {"xml_xsi", "all_vars", "enc_shuffled"},
-                {"ser_globalns", "all_vars", "enc_shuffled"}]
+                {"ser_globalns", "all_vars", "enc_shuffled"},
+                {"xml_shuffled_wild", "dec_shuffled_wildobj"}]
     for i, a in enumerate(names):
         for b in names[i:]:
             related = any(a in f and b in f for f in families)
